@@ -53,6 +53,7 @@ func init() {
 		var mu sync.Mutex
 		var gotBody []byte
 		var answer []byte
+		rejectOnce := false
 		gotCh := make(chan struct{}, 16)
 		srv.OnFrame = func(c *refsrv.Conn, f *refsrv.Frame) {
 			if !f.KeyIDOK || !f.MsgKeyOK || len(f.Body) < 4 {
@@ -65,7 +66,14 @@ func init() {
 			mu.Lock()
 			gotBody = append([]byte{}, f.Body...)
 			ans := answer
+			rej := rejectOnce
+			rejectOnce = false
 			mu.Unlock()
+			if rej {
+				// the request is refused once with bad_server_salt: its repetition must be answered like the original
+				c.SendEnc(refsrv.BadServerSalt(f.MsgID, f.SeqNo, 777), 2, 3)
+				return
+			}
 			if ans != nil {
 				c.SendEnc(refsrv.RpcResult(f.MsgID, ans), 1, 1)
 			}
@@ -133,6 +141,8 @@ func init() {
 			mu.Lock()
 			gotBody = nil
 			answer = render(c.ResImg)
+			// every method with a vector result, and every seventh other one, meets a salt rotation on its first attempt
+			rejectOnce = c.ResKind == "vec" || rep.Evaluations%7 == 0
 			mu.Unlock()
 			for len(gotCh) > 0 {
 				<-gotCh
